@@ -20,8 +20,7 @@ def main(run: Run):
         if not behs:
             continue
         traces = run.execute("c04", "pkg/packet/bgp", "^TestVerifC04$", behs, tag="c04-" + sw)
-        run.validate("FramingTrace", "FramingTrace_C04.cfg", traces, behs,
-                     known_cfg="FramingTraceKF_C04.cfg", group=sw, batch=400)
+        fc.validate(run, "FramingTraceKF_C04.cfg", "FramingTraceKFCount_C04.cfg", traces, behs, group=sw)
 
 
 LEVEL = "exploration"
